@@ -460,6 +460,7 @@ pub fn c08(tier: &str) -> ! {
     if t {
         run_faults(&mut rep, "covering", covering_histories(&["T300", "T300n", "M2", "M2n"]).into_iter().chain(shrink_history()).collect(), class::PROPERTY_SET | class::LIST, budget(tier, 40, 1800));
         run_faults(&mut rep, "generated<=4", generated_histories(&["T300", "M2n"], 4), class::PROPERTY_SET, budget(tier, 40, 1200));
+        run_faults(&mut rep, "generated<=5", generated_histories(&["T300"], 5), class::PROPERTY_SET, budget(tier, 40, 1500));
         run_faults(&mut rep, "generated<=3+all-classes", generated_histories(&["T300n", "M2", "L"], 3), class::ALL, budget(tier, 40, 900));
         run_faults(&mut rep, "covering+reads", covering_histories(&["T300", "T300n", "M2", "M2n"]).into_iter().chain(shrink_history()).collect(), class::ALL, budget(tier, 40, 1200));
     } else {
